@@ -47,6 +47,7 @@ type tableSpec struct {
 	Atoms     map[string]int                                     // atoms the oracle reads: name → domain
 	Expected  func(v *Valuation) (outcome string, asserted bool) // oracle
 	Outcome   func(p Path) string                                // abstraction of a path's result; default: classified returns + effects
+	OutcomeV  func(p Path, val map[string]int) string            // optional: the outcome of a path under one valuation (a value stored that is itself an atom)
 	Construct string
 	// Rename maps code atoms to oracle atoms (after canonical translation).
 	Rename      func(atom string) string
@@ -271,7 +272,11 @@ func runTable(c *Ctx, ts tableSpec) {
 			}
 			for _, r := range rows {
 				if evalF(r.f, full) {
-					gotSet[r.out] = true
+					if ts.OutcomeV != nil {
+						gotSet[ts.OutcomeV(r.p, full)] = true
+					} else {
+						gotSet[r.out] = true
+					}
 				}
 			}
 		})
